@@ -1125,3 +1125,62 @@ def r15(R):
                             'the shared storage lock')
     R.require(n >= 1, 'DemoStorage no longer delegates tpc_begin/pack to '
               'its changes')
+
+
+# ------------------------------------------------------------------ C08.R16
+@rule('C08.R16', 'a pack of a demo storage\'s changes that fails, with '
+      'whatever exception, leaves the remembered pack time as it was '
+      '(nothing was packed: a reader must still be served the base\'s '
+      'revision for times before the first change)',
+      props=['C16'], min_instances=1)
+def r16(R):
+    from ..twopc import DS
+    cls = R.prog.cls(DS)
+    f = R.method(cls, 'pack')
+    g, b, F = R.cfg(f, cls, max_depth=0)
+    seen = {'stores': 0, 'packs': 0}
+
+    def is_store(op):
+        return op.kind == 'store' and path_is(op.path,
+                                              ('self', '_packed_to'))
+
+    def is_pack(op):
+        return op.kind == 'call' and path_is(op.path,
+                                             ('self', 'changes', 'pack'))
+
+    def edge(node, st, lab, tgt):
+        if lab in ('e', 'eb'):
+            if st == 'raised' and any(is_pack(op) for op in F.ops(node)):
+                return 'failed'
+            return st
+        if any(is_store(op) for op in F.ops(node)):
+            if st == 'start':
+                return 'raised'
+            if st == 'failed':
+                return 'restored'
+        return st
+
+    def at(node, st):
+        for op in F.ops(node):
+            if is_store(op):
+                seen['stores'] += 1
+            if is_pack(op):
+                seen['packs'] += 1
+        if node.id == g.exit_raise and st == 'failed':
+            return Violation(
+                'DemoStorage.pack raised self._packed_to, the pack of the '
+                'changes failed and the exception leaves pack() without '
+                'the old time being put back: nothing was removed, yet a '
+                'load before the first change of an object is no longer '
+                'answered from the base')
+        return st
+
+    vs, stats = explore(g, 'start', at=at, edge=edge)
+    R.count(stats)
+    R.instance('DemoStorage.pack', packed_to_stores=seen['stores'],
+               changes_packs=seen['packs'])
+    R.require(seen['packs'] >= 1, 'DemoStorage.pack no longer packs its '
+              'changes')
+    for v in vs[:1]:
+        R.violation(v.node, v.message, g, v.path,
+                    key='pack time kept raised after a failed pack')
